@@ -291,6 +291,55 @@ def check_one(proc, selkind, sel, names):
     return [], 'ok:%d' % len(want), nontrivial
 
 
+REUSE_PROCS = ['sort_rows', 'filter_rows', 'set_type', 'delete_fields', 'update_resource', 'set_primary_key', 'find_replace',
+               'printer', 'deduplicate', 'delete_resource', 'unpivot', 'add_field', 'rename_fields', 'select_fields',
+               'update_schema', 'validate']
+
+
+def check_reuse(case):
+    """case = (proc, selkind, sel): the SAME step object runs first on package A, then on package B (other order / other
+    members). The second result must equal what a freshly built step gives on B."""
+    proc, selkind, sel = case
+    A, B = ['a', 'ab', 'a.b'], ['aXb', 'a.b', 'ab', 'a']
+    witness = {'reuse': [proc, selkind, sel]}
+    out = {'n': 1, 'keys': [core.h(['reuse', proc, sel])], 'outcomes': {}, 'viol': [], 'states': 1, 'transitions': 2, 'traces': 1}
+    with core.scratch_dir() as d:
+        env = Env(d)
+        try:
+            step = core.build(PROCS[proc](sel), env)
+            with core.fake_mp():
+                try:
+                    core.materialise(core.from_state(package(A)), step)
+                except core.CaseTimeout:
+                    raise
+                except Exception:
+                    pass            # the selector may not apply to the first package at all
+                second = core.materialise(core.from_state(package(B)), step)
+            got = ('ok', observe(second, []))
+        except core.CaseTimeout:
+            raise
+        except Exception as e:
+            got = ('exc', e)
+    kind, fresh, _ = run_one(proc, sel, B)
+    label = '%s(resources=%r): one step object run on package %r and then on %r' % (proc, sel, A, B)
+    if kind != 'ok':
+        out['outcomes']['reuse:fresh-rejected'] = 1
+        return out
+    if got[0] == 'exc':
+        out['outcomes']['reuse:raises'] = 1
+        out['viol'].append(('reuse-raises/%s' % proc, '%s: the second run raises %s: %s' % (label, core.exc_sig(got[1]), str(got[1])[:100]), witness))
+        return out
+    gn, gobs, grest = got[1]
+    fn_, fobs, frest = fresh
+    if gn != fn_ or any(norm(gobs[n], False)['rows'] != norm(fobs[n], False)['rows'] or gobs[n]['desc'] != fobs[n]['desc'] for n in fn_ if n in gobs):
+        out['outcomes']['reuse:differs'] = 1
+        out['viol'].append(('reuse-differs/%s/%s' % (proc, selkind), '%s: the second run differs from a freshly built step on the second '
+                            'package' % label, witness))
+    else:
+        out['outcomes']['reuse:ok'] = 1
+    return out
+
+
 def run(run):
     run.rule = ('full product processor(%d) x selector form(%d) x package(names over {a,ab,a.b,aXb}); a case is '
                 'non-trivial when the specified selection is non-empty; distinct by (processor, selector, package)'
@@ -303,10 +352,15 @@ def run(run):
     cases = [(p, names) for p in PROCS for names in pk]
     for res in run.map(check_case, cases, chunksize=2):
         run.absorb(res)
+    reuse_cases = [(p, k, sel) for p in REUSE_PROCS for k, sel in SELECTORS if k in ('none', 'name', 'regex-star', 'list2', 'int')]
+    for res in run.map(check_reuse, reuse_cases, chunksize=4):
+        run.absorb(res)
     run.extra['processors'] = sorted(PROCS)
     run.extra['packages'] = len(pk)
 
 
 def replay(w):
+    if 'reuse' in w:
+        return check_reuse(tuple(w['reuse']))['viol']
     v, outcome, _ = check_one(w['proc'], w['selkind'], w['sel'], w['names'])
     return v
